@@ -72,6 +72,12 @@ def _path_aliases(f: FuncInfo, selfname="self") -> set[str]:
     return al
 
 
+def _alias_is_plain(f, name: str) -> bool:
+    """Every binding of the local is `name = self.path` (no call, no concatenation)."""
+    binds = [n for n in own_nodes(f.node) if isinstance(n, ast.Assign) and any(isinstance(t, ast.Name) and t.id == name for t in n.targets)]
+    return bool(binds) and all(norm(b.value) == "self.path" for b in binds)
+
+
 def rule_r1(ctx):
     repo, ty = ctx.repo, ctx.typer
     et = repo.cls(ET)
@@ -100,6 +106,21 @@ def rule_r1(ctx):
                       f"{d} on the tensor's path is not dominated by self.{CHECK}() — bytes can be read "
                       "before containment is verified",
                       how="dominator query in the method's CFG")
+            # what is opened is what was checked: the path handed to the opener is self.path itself (or a local bound to it),
+            # not a re-spelling of it - the check resolves links before `..`, a string normalisation resolves `..` first, so
+            # normpath/abspath/join of the checked path can name another file than the one that passed the check
+            path_locals = {t.id for n in own_nodes(f.node) if isinstance(n, ast.Assign) and "self.path" in norm(n.value) for t in n.targets if isinstance(t, ast.Name)}
+            pargs = [a for a in list(call.args) + [k.value for k in call.keywords]
+                     if "self.path" in norm(a) or any(isinstance(x, ast.Name) and x.id in path_locals for x in ast.walk(a))]
+            if not pargs:
+                continue  # the opener works on a handle of the file opened before (mmap of f.fileno())
+            same = all(norm(a) == "self.path" or (isinstance(a, ast.Name) and _alias_is_plain(f, a.id)) for a in pargs)
+            ctx.check("R1", f"{f.local}: {d} opens the checked path itself", same, f, call,
+                      f"`{norm(pargs[0]) if pargs else ''}` is opened, while self.{CHECK}() verified `self.path`: the two can differ "
+                      "(a `..` after a symlinked directory is resolved differently by the file system and by string normalisation), so a "
+                      "location that passes the containment check is read from another file - possibly outside the base directory",
+                      how="the opener's path argument is `self.path` or a local bound to exactly that", nontrivial=False,
+                      construct=f"{d} opens a re-spelling of the checked path")
     ctx.require(n_open >= 2, "fewer than 2 path-opening sites found in ExternalTensor")
     # who may fill the data fields
     for f in funcs:
